@@ -80,7 +80,15 @@ func extRunWorkers(vc *VC, fr *Frame, st *State, args []Val, pos token.Pos) []Ou
 	s1.Assume(vc.iLe(vc.idx(0), wn, true))
 	s1.Assume(vc.iLt(wn, wc, true))
 	s1.Assume(vc.iLe(wc, vc.idx(0x10000), true))
-	if fc != nil {
+	root := fr
+	for root.parent != nil {
+		root = root.parent
+	}
+	inScenario := !(vc.curCase == "" && root.contract != nil && len(root.contract.Scenarios) > 0)
+	if fc != nil && !inScenario {
+		// the run without preconditions only establishes safety of the dispatcher itself; the closure's
+		// preconditions are established in the scenario runs, under their well-formedness assumptions
+	} else if fc != nil {
 		cf := &Frame{fn: fn, env: map[ssa.Value]Val{}, ghost: map[string]Val{}, parent: fr}
 		for i, v := range fn.FreeVars {
 			if i < len(fv.Bind) {
